@@ -425,6 +425,31 @@ def builder_build(info, cex, keywords):
         else:
             steps.append({"ok": True})
         return {"facts": {"t": "None"}, "builder": ops}, 0, ("steps", steps, None), None
+    if op == "functions":
+        m = info["m"]
+        names = [S(f"newfn{i}.name") for i in range(m)]
+        if any(not n.isascii() for n in names):
+            raise Unrealisable("non-ASCII function name in the model")
+        valid = [bool(ASCII_IDENT.match(n)) and n not in keywords for n in names]
+        ops, steps, have = [], [], set()
+        for n in set(names):
+            if C.boolean(e3.fn_registered(z3.StringVal(n))):
+                if not (ASCII_IDENT.match(n) and n not in keywords):
+                    raise Unrealisable("the model registers an ill-formed name")
+                ops.append({"op": "function", "name": n, "results": []})
+                steps.append({"ok": True})
+                have.add(n)
+        res = {"ok": True}
+        for i, n in enumerate(names):
+            if not valid[i]:
+                res = {"err": {"variant": "InvalidFunctionName", "a": n}}
+                break
+            if n in have:
+                res = {"err": {"variant": "DuplicateFunctionName", "a": n}}
+                break
+            have.add(n)
+        ops.append({"op": "function", "name": names[0], "results": []} if m == 1 else {"op": "functions", "names": names})
+        return {"facts": {"t": "None"}, "builder": ops}, 0, ("steps", steps + [res], None), None
     if op == "symbols":
         a, b, q = S("symA.name"), S("symB.name"), S("query.name")
         va, vb = C.value(z3.Const("symA.val", VAL)), C.value(z3.Const("symB.val", VAL))
